@@ -106,7 +106,100 @@ def diffClass (c : Ctx) (st : Store) (a b : Expr) : String :=
   if nd = 0 then "equal" else if nd = 1 then "differ-in-1" else if nd + 1 = c.n then "equal-in-1"
   else if nd = c.n then "all-differ" else "some-differ"
 
+/-- coarse degree class for the evidence histogram -/
+def degClass (deg : Nat) : String :=
+  let pow2 := deg != 0 && (List.range 21).any fun k => 2 ^ k == deg
+  if deg ≤ 3 then s!"deg{deg}" else if pow2 then "deg-pow2"
+  else if deg < 64 then "deg-npow2-lt64" else if deg < 128 then "deg-npow2-64..128" else "deg-npow2-gt128"
+
+/-- hypotheses and expected answer of one `bool(e)` (the statement of `C08.eq_iff` / `neq_iff` / `bool_iff_nonzero`):
+`none` if the hypotheses of the theorem do not hold of the line (generator obligation). -/
+def ebWant (c : Ctx) (m : Mode) (st : Store) (e : Expr) : Option Bool :=
+  let idx := (List.range c.nmod).flatMap fun cm => (List.range c.deg).map fun i => (cm, i)
+  let (ok, want) := match e with
+    | .eq x y => (admB c st x && admB c st y, idx.all fun (cm, i) => evalExact c st x cm i == evalExact c st y cm i)
+    | .neq x y => (admB c st x && admB c st y, idx.any fun (cm, i) => evalExact c st x cm i != evalExact c st y cm i)
+    | e => (admB c st e, idx.any fun (cm, i) => evalExact c st e cm i != 0)
+  if !(ok && storeWfB c st && compiles m c.l c.deg e) then none else some want
+
+/-! ### `bsweep`: a batch of boolean conversions on stores that differ in one row (harness/expr_rt.hpp `sweep`).
+Nothing new is modelled: evaluation `k` is the `ebool` / `ppeq` / `ppne` / `pbool` line on `sweepStore … k`. -/
+
+structure SweepCase where
+  c : Ctx
+  m : Mode
+  fam : Nat
+  pat : Nat
+  t : Nat
+  e : Expr
+  st : Store
+  alt : List Nat
+  pos : List Nat
+
+/-- the store of evaluation `k`: pattern 0 = the printed row of handle `t` with element `k` taken from `alt`;
+pattern 1 = `alt` with element `k` taken from the printed row -/
+def sweepStore (s : SweepCase) (k : Nat) : Store :=
+  let a := s.st.getD s.t []
+  if s.pat = 0 then s.st.set s.t (a.set k (s.alt.getD k 0)) else s.st.set s.t (s.alt.set k (a.getD k 0))
+
+def parseSweep (a : List Nat) : Option SweepCase :=
+  match a with
+  | w :: be :: nmod :: deg :: fam :: pat :: t :: len :: r => do
+    let (c, m) ← ctxOf w be nmod deg
+    let (e, leftover) ← parseTree (len + 1) (r.take len)
+    if !leftover.isEmpty then none else
+    match r.drop len with
+    | nh :: ws =>
+      let n := c.n
+      if ws.length < nh * n + n + 1 then none else
+      let st := exprChunks n nh (ws.take (nh * n))
+      let rest := ws.drop (nh * n)
+      match rest.drop n with
+      | np :: pos =>
+        if pos.length != np || t ≥ nh || pat > 1 || pos.any (· ≥ n) then none else
+        pure { c := c, m := m, fam := fam, pat := pat, t := t, e := e, st := st, alt := rest.take n, pos := pos }
+      | [] => none
+    | [] => none
+  | _ => none
+
+/-- the model's answer for one evaluation of the family (`ebool`, `ppeq`/`ppne`, `pbool`) -/
+def sweepModel (s : SweepCase) (st : Store) : Option Bool :=
+  match s.fam, s.e with
+  | 0, e => exprToBool s.c s.m st e
+  | 1, .eq (.leaf ha) (.leaf hb) => polyPEq s.c s.m st ha hb
+  | 1, .neq (.leaf ha) (.leaf hb) => polyPNeq s.c s.m st ha hb
+  | 2, .leaf h => some (polyToBool st h)
+  | _, _ => none
+
+/-- the specification's answer for one evaluation (same statements as the single-evaluation handlers) -/
+def sweepWant (s : SweepCase) (st : Store) : Option Bool :=
+  match s.fam, s.e with
+  | 0, e => ebWant s.c s.m st e
+  | 1, .eq (.leaf ha) (.leaf hb) => if storeWfB s.c st then some (st.getD ha [] == st.getD hb []) else none
+  | 1, .neq (.leaf ha) (.leaf hb) => if storeWfB s.c st then some (st.getD ha [] != st.getD hb []) else none
+  | 2, .leaf h => if storeWfB s.c st then some ((List.range s.c.n).any fun k => rd st h k != 0) else none
+  | _, _ => none
+
+def sweepRoot (s : SweepCase) : String :=
+  match s.fam, s.e with
+  | 0, .eq _ _ => "eq" | 0, .neq _ _ => "neq" | 0, _ => "bool"
+  | 1, .eq _ _ => "ppeq" | 1, _ => "ppne" | _, _ => "pbool"
+
+def b2i (b : Bool) : Int := if b then 1 else 0
+
 def exprHandlersP : List (String × PHandler) := [
+  ("bsweep", {
+    run := fun a => do
+      let s ← parseSweep (natsOf a)
+      let bits ← s.pos.mapM fun k => sweepModel s (sweepStore s k)
+      let md : Nat := if s.fam = 0 then (mode s.m s.c.l s.e).code else 0
+      pure { model := (md : Int) :: bits.map b2i, specOk := true,
+             cls := s!"{sweepRoot s}:" ++ (if s.pat = 0 then "differ-in-1" else "equal-in-1") ++
+                    s!":n{s.c.deg}x{s.c.nmod}:" ++ (if s.pos.length = s.c.n then "every-position" else "boundary-positions") },
+    spec := fun a impl => do
+      let s ← parseSweep (natsOf a)
+      let want ← s.pos.mapM fun k => sweepWant s (sweepStore s k)
+      pure (impl.drop 1 == want.map b2i) }),
   ("asg", {
     run := fun a => match natsOf a with
       | w :: be :: nmod :: deg :: form :: d :: rest => do
@@ -117,7 +210,7 @@ def exprHandlersP : List (String × PHandler) := [
         let aliased := (Expr.leafList e).contains d
         pure { model := ((mode m c.l e).code : Int) :: flat r, specOk := true,
                cls := s!"form{form}:be{be}:mode{(mode m c.l e).code}:depth{Expr.depth e}:" ++
-                      (if aliased then "aliased" else "distinct") }
+                      (if aliased then "aliased" else "distinct") ++ ":" ++ degClass deg }
       | _ => none,
     spec := fun a impl => match natsOf a with
       | w :: be :: nmod :: deg :: form :: d :: rest => do
@@ -139,18 +232,13 @@ def exprHandlersP : List (String × PHandler) := [
           | .neq x y => "neq:" ++ diffClass c st x y
           | e => "bool:" ++ diffClass c st e (.sub (.leaf 0) (.leaf 0))
         pure { model := [((mode m c.l e).code : Int), if r then 1 else 0], specOk := true,
-               cls := s!"be{be}:mode{(mode m c.l e).code}:k{kind}:" ++ cl }
+               cls := s!"be{be}:mode{(mode m c.l e).code}:k{kind}:" ++ cl ++ ":" ++ degClass deg }
       | _ => none,
     spec := fun a impl => match natsOf a with
       | w :: be :: nmod :: deg :: _kind :: rest => do
         let (c, m) ← ctxOf w be nmod deg
         let (e, st) ← treeAndStore c rest
-        let idx := (List.range c.nmod).flatMap fun cm => (List.range c.deg).map fun i => (cm, i)
-        let (ok, want) := match e with
-          | .eq x y => (admB c st x && admB c st y, idx.all fun (cm, i) => evalExact c st x cm i == evalExact c st y cm i)
-          | .neq x y => (admB c st x && admB c st y, idx.any fun (cm, i) => evalExact c st x cm i != evalExact c st y cm i)
-          | e => (admB c st e, idx.any fun (cm, i) => evalExact c st e cm i != 0)
-        if !(ok && storeWfB c st && compiles m c.l c.deg e) then none else
+        let want ← ebWant c m st e
         match impl with
         | [_, r] => pure (r == (if want then 1 else 0))
         | _ => pure false
